@@ -89,6 +89,11 @@ Config(c) ==
          [parent |-> 2, pattern |-> "www.*", aliases |-> <<>>, paths |-> <<"/a">>, gen |-> TRUE],
          [parent |-> 1, pattern |-> "exact.test", aliases |-> <<>>, paths |-> <<"/admin">>, gen |-> TRUE],
          [parent |-> 1, pattern |-> "*.example.*", aliases |-> <<"www.deep.example.com">>, paths |-> <<"/a">>, gen |-> TRUE]>>
+    [] c = "stars" ->    \* '*' in the middle / at the start of a pattern: it matches ANY string, the empty one included
+       <<[parent |-> 0, pattern |-> "", aliases |-> <<>>, paths |-> <<"/a">>, gen |-> TRUE],
+         [parent |-> 1, pattern |-> "www*.example.com", aliases |-> <<>>, paths |-> <<"/a">>, gen |-> TRUE],
+         [parent |-> 1, pattern |-> "*a.test", aliases |-> <<>>, paths |-> <<>>, gen |-> TRUE],
+         [parent |-> 1, pattern |-> "x*y*.org", aliases |-> <<>>, paths |-> <<"/a">>, gen |-> TRUE]>>
     [] c = "shadow" ->   \* a later sibling that would also match is never chosen; alias beats pattern
        <<[parent |-> 0, pattern |-> "", aliases |-> <<>>, paths |-> <<>>, gen |-> FALSE],
          [parent |-> 1, pattern |-> "*", aliases |-> <<>>, paths |-> <<"/a">>, gen |-> FALSE],
